@@ -124,9 +124,9 @@ def rule_order(facts, rep):
                      "core::fmt::rt::Argument::<'_>::new_display": lambda a_: ("display", a_[0]),
                      "core::fmt::Arguments::<'a>::new": lambda a_: ("format", a_[0], a_[1]),
                      "anstyle::color::AnsiColor::render_fg": lambda a_: ("render_fg", a_[0]),
-                     "anstyle::color::AnsiColor::render_bg": lambda a_: ("render_bg", a_[0]),
-                     "anstyle::reset::Reset::render": lambda a_: ("render_reset",)}
-            ev = abseval.Evaluator(facts, "anstyle_wincon", atoms)
+                     "anstyle::color::AnsiColor::render_bg": lambda a_: ("render_bg", a_[0])}
+            # (Reset::render is evaluated: in anstyle it hands `self` back, so `Reset.render()` and `Reset` display alike)
+            ev = abseval.Evaluator(facts, "anstyle_wincon", atoms, inline_crates=("anstyle_wincon", "anstyle"))
             ev.choices = choices
             r = ev.call_fn("anstyle_wincon", b["path"], [("sym", "stream"), ("some", ("sym", "FG")) if fgs else ("none",),
                                                          ("some", ("sym", "BG")) if bgs else ("none",), ("sym", "data")])
@@ -134,7 +134,7 @@ def rule_order(facts, rep):
         want = ([("fmt", ("format", ONE_PLACEHOLDER, ("array", ("display", ("render_fg", ("sym", "FG"))))))] if fgs else []) + \
                ([("fmt", ("format", ONE_PLACEHOLDER, ("array", ("display", ("render_bg", ("sym", "BG"))))))] if bgs else [])
         data_at = len(want)
-        want = want + [("data", ("sym", "data"))] + ([("fmt", ("format", ONE_PLACEHOLDER, ("array", ("display", ("render_reset",)))))] if (fgs or bgs) else [])
+        want = want + [("data", ("sym", "data"))] + ([("fmt", ("format", ONE_PLACEHOLDER, ("array", ("display", ("enum", "anstyle::reset::Reset")))))] if (fgs or bgs) else [])
         try:
             results = abseval.explore(run)
         except Unrecognised as ex:
